@@ -1664,11 +1664,14 @@ Section scmd_ind2.
   Hypothesis H14 : forall a, P (SSetAnswer a).
   Hypothesis H15 : forall m, P (SMark m).
   Hypothesis H16 : forall k t e, Forall P t -> Forall P e -> P (SIfCount k t e).
+  Hypothesis H17 : P SSysExit.
+  Hypothesis H18 : forall (x : nat), P (SRedrawOther x).
+  Hypothesis H19 : forall (x : nat), P (SCloseOther x).
   Fixpoint scmd_ind2 (c : scmd) : P c :=
     match c with
     | SPush x a => H1 x a | SPushModal x a => H2 x a | SReplace x a => H3 x a | SSchedule x a => H4 x a
     | SCloseSig => H5 | SCloseNow => H6 | SRedrawSig => H7 | SSchedRedraw => H8 | SRaise => H9 | SExit => H10
-    | SForceQuit => H11 | SGetUserInput => H12 | SSetInputRequired b => H13 b | SSetAnswer a => H14 a | SMark m => H15 m
+    | SForceQuit => H11 | SSysExit => H17 | SRedrawOther x => H18 x | SCloseOther x => H19 x | SGetUserInput => H12 | SSetInputRequired b => H13 b | SSetAnswer a => H14 a | SMark m => H15 m
     | SIfCount k t e =>
       H16 k t e
           ((fix go (l : list scmd) : Forall P l :=
@@ -1790,6 +1793,9 @@ Proof.
       sstep L; [apply Hx, HI|apply IH; assumption].
     + revert s HI. induction H0 as [|x r Hx Hr IH]; intros s HI; [sstep L|].
       sstep L; [apply Hx, HI|apply IH; assumption].
+  - cbn [do_scmd]. sstep L.
+  - cbn [do_scmd]. sstep L.
+  - cbn [do_scmd]. sstep L.
 Qed.
 
 Lemma std_do_scmds : forall l s, Inv s -> std n s (do_scmds specs cn self cnt l).
@@ -2182,12 +2188,12 @@ Definition kx : str := [120%N]. Definition ky : str := [121%N].
 Definition scr (refresh show : list scmd) (inp : list (str * (list scmd * ret_val))) : screen_spec :=
   {| sc_setup := []; sc_refresh := refresh; sc_show := show; sc_closed := []; sc_input := inp;
      sc_input_default := ([], None); sc_prompt_none := false; sc_input_required := true;
-     sc_no_separator := false; sc_skip_check := false; sc_pages := 0 |}.
+     sc_no_separator := false; sc_skip_check := false; sc_pages := 0; sc_answer0 := AnsNoAttr |}.
 (* a screen that never asks for input *)
 Definition quiet (refresh show : list scmd) : screen_spec :=
   {| sc_setup := []; sc_refresh := refresh; sc_show := show; sc_closed := []; sc_input := [];
      sc_input_default := ([], Some RProcessed); sc_prompt_none := false; sc_input_required := false;
-     sc_no_separator := false; sc_skip_check := false; sc_pages := 0 |}.
+     sc_no_separator := false; sc_skip_check := false; sc_pages := 0; sc_answer0 := AnsNoAttr |}.
 Definition session (specl : list screen_spec) (typed : list (option str)) (acts : list saction) : list outcome * list event :=
   let '(os, st) := app_run_all (fun n => nth n specl default_spec) specl typed None false 2000 acts in
   (os, rev (trace st)).
@@ -2243,7 +2249,7 @@ Definition cx1_specs := [ quiet [SIfCount 1 [SPush 2 0] []] [];
                           {| sc_setup := []; sc_refresh := [SIfCount 1 [SPushModal 1 0] []]; sc_show := [SIfCount 1 [SCloseSig] []];
                              sc_closed := []; sc_input := []; sc_input_default := ([], Some RProcessed);
                              sc_prompt_none := false; sc_input_required := true; sc_no_separator := false;
-                             sc_skip_check := false; sc_pages := 0 |} ].
+                             sc_skip_check := false; sc_pages := 0; sc_answer0 := AnsNoAttr |} ].
 Definition cx1_typed := [Some kx].
 Definition cx1 := session cx1_specs cx1_typed start.
 (* cx2: no screen twice; force_quit, then a second App.run() *)
@@ -2252,7 +2258,7 @@ Definition cx2_specs := [ {| sc_setup := [];
                                             [SIfCount 4 [SPushModal 1 0] []]]]];
                              sc_show := []; sc_closed := []; sc_input := []; sc_input_default := ([], Some RRedraw);
                              sc_prompt_none := false; sc_input_required := true; sc_no_separator := false;
-                             sc_skip_check := false; sc_pages := 0 |};
+                             sc_skip_check := false; sc_pages := 0; sc_answer0 := AnsNoAttr |};
                           quiet [] [] ].
 Definition cx2_typed := [Some kx; Some ky].
 Definition cx2 := session cx2_specs cx2_typed [SACmds [SSchedule 0 0]; SARun; SARun].
